@@ -817,6 +817,44 @@ func runMachine(t *rapid.T, seed []byte) (w *world) {
 			}
 			checkErr(t, w, w.legitEnsure())
 		},
+		"legit-aborts-large-transfer-then-attacker-probes": func(t *rapid.T) {
+			// the verified controller asks for a large response and its connection is reset while the accessory is
+			// still sending; whatever the accessory keeps of that half-sent response (buffers, pools, pending
+			// writes) must not reach the next peers, which connect right afterwards and are refused
+			if rapid.IntRange(0, 3).Draw(t, "rarely") > 0 {
+				t.Skip("kept rare")
+			}
+			checkErr(t, w, w.legitEnsure())
+			note("L requests /accessories with a multi-megabyte value and resets mid-transfer; 8 unverified connections probe")
+			big := w.canary() + strings.Repeat(" CANARY-filler", 200000)
+			w.text = big
+			w.tb.Text.SetValue(big)
+			before := w.snap()
+			w.lconn.SendRaw(refctl.BuildRequest("GET", "/accessories", "", nil))
+			time.Sleep(time.Duration(rapid.IntRange(0, 3000).Draw(t, "abort-after-us")) * time.Microsecond)
+			w.lconn.Reset()
+			w.lconn, w.lVerifiedNow = nil, false
+			for k := 0; k < 8; k++ {
+				cl, err := refctl.Dial(w.acc.Addr)
+				if err != nil {
+					checkErr(t, w, fmt.Errorf("INFRA: %v", err))
+				}
+				cl.Timeout = 8 * time.Second
+				rq := w.protectedRequest(t)
+				r, derr := cl.Do(rq.method, rq.path, rq.ctype, rq.body)
+				what := fmt.Sprintf("unverified connection right after a verified controller's connection was reset in the middle of a large response, plaintext %s %s", rq.method, rq.path)
+				if rq.protected {
+					checkErr(t, w, judgeProtected(what, r, derr, cl))
+				} else {
+					checkErr(t, w, judgeLenient(what, r, derr, cl))
+				}
+				cl.Close()
+			}
+			checkErr(t, w, w.unchanged(before, "aborted large transfer"))
+			w.text = w.canary()
+			w.tb.Text.SetValue(w.text)
+			w.flags["probe-after-aborted-large-transfer"] = true
+		},
 		"app-set": func(t *rapid.T) {
 			note("application sets text and brightness")
 			w.text = w.canary()
